@@ -318,9 +318,10 @@ func (vc *VC) frameObligations(c *Contract, args []Val, out *State) {
 		case strings.HasPrefix(name, "Z!rv"):
 			// abstract field store: cells of pre-existing objects (object 0 is "no object")
 			conds = append(conds, app("bvult", key, "alloc0"), not(eq(key, bvLit(64, 0))))
-		case name == "Z!wpos" || name == "Z!outb":
-			// output of writer objects that existed before the call (a buffer created here is the function's own)
-			conds = append(conds, app("bvult", key, "alloc0"))
+		case strings.HasPrefix(name, "Z!"):
+			// ghost state is keyed by object identity: only the state of objects that existed before the call is
+			// framed (a buffer, file or decoder created here is the function's own)
+			conds = append(conds, app("bvult", key, "alloc0"), not(eq(key, bvLit(64, 0))))
 		}
 		for ki, kk := range keys {
 			if c := by[name][ki].cond; c != "" {
